@@ -240,9 +240,6 @@ func (e *Engine) markEscapes(args []*Val) {
 		if a == nil {
 			continue
 		}
-		if a.Kind == KAddr && a.Src != nil {
-			a.Src.NonNil = a.Src.NonNil // no-op; escaping tracked via Escaped below
-		}
 		if a.Kind == KAlloc {
 			a.Elems = append(a.Elems[:0:0], a.Elems...)
 		}
@@ -255,6 +252,12 @@ func (e *Engine) opaqueCall(st *State, ci *callInfo) []multiOut {
 	for i, t := range e.resultTypes(ci) {
 		v := e.newVal(KCall, t, ci.call.Pos())
 		v.Ev, v.Idx = ev, i
+		if ci.callee != nil {
+			switch FuncName(ci.callee) {
+			case "fmt.Errorf", "errors.New", "time.After", "context.Background", "context.WithValue":
+				v.NonNil = true
+			}
+		}
 		rs = append(rs, v)
 	}
 	ev.Results = rs
